@@ -50,9 +50,10 @@ type Thread struct {
 
 // PointRec records one scheduling decision where more than one thread was enabled.
 type PointRec struct {
-	Enabled    []int // thread ids in canonical order (running first if enabled, then ascending)
-	Chosen     int   // index into Enabled
-	CurEnabled bool  // the running thread was among the enabled ones (switching away costs a preemption)
+	Enabled    [8]int16 // thread ids in canonical order (running first if enabled, then ascending); first N valid
+	N          int      // number of alternatives
+	Chosen     int      // index into Enabled
+	CurEnabled bool     // the running thread was among the enabled ones (switching away costs a preemption)
 	Kind       string
 	Step       int
 	Choice     bool // a data choice (mcrt.Choose), not a thread choice
@@ -136,6 +137,7 @@ type Sched struct {
 	cost     int // preemptions + deviations so far
 	thrAcc   uint64
 	locAcc   uint64
+	enScratch []*Thread
 }
 
 type locState struct {
@@ -170,7 +172,13 @@ func Run(cfg Config, body func()) *Result {
 		cfg.MaxSteps = 100000
 	}
 	execCounter++
-	s := &Sched{cfg: cfg, res: &Result{}, finished: make(chan struct{}), locs: map[uintptr]*locState{}, execID: execCounter}
+	s := &Sched{cfg: cfg, res: &Result{}, finished: make(chan struct{}), locs: make(map[uintptr]*locState, 32), execID: execCounter}
+	s.res.Points = make([]PointRec, 0, 128)
+	s.res.Choices = make([]int, 0, 128)
+	if cfg.RecordOps {
+		s.res.Ops = make([]OpRec, 0, 256)
+	}
+	s.enScratch = make([]*Thread, 0, 8)
 	S = s
 	t0 := s.newThread("main")
 	s.cur = t0
@@ -292,7 +300,7 @@ func (s *Sched) schedule(cur *Thread, exiting bool) {
 		s.end(cur)
 		return
 	}
-	var en []*Thread
+	en := s.enScratch[:0]
 	curEnabled := !exiting && cur.isEnabled(s)
 	if curEnabled {
 		en = append(en, cur)
@@ -334,11 +342,14 @@ func (s *Sched) schedule(cur *Thread, exiting bool) {
 				return
 			}
 		}
-		ids := make([]int, len(en))
-		for i, t := range en {
-			ids[i] = t.ID
+		pr := PointRec{N: len(en), Chosen: idx, CurEnabled: curEnabled, Kind: cur.kind, Step: s.steps}
+		if len(en) > len(pr.Enabled) {
+			panic("mcrt: more than 8 enabled threads")
 		}
-		s.res.Points = append(s.res.Points, PointRec{Enabled: ids, Chosen: idx, CurEnabled: curEnabled, Kind: cur.kind, Step: s.steps})
+		for i, t := range en {
+			pr.Enabled[i] = int16(t.ID)
+		}
+		s.res.Points = append(s.res.Points, pr)
 		s.res.Choices = append(s.res.Choices, idx)
 		s.pos++
 		if idx != 0 && curEnabled {
@@ -346,6 +357,7 @@ func (s *Sched) schedule(cur *Thread, exiting bool) {
 		}
 	}
 	next := en[idx]
+	s.enScratch = en[:0]
 	s.steps++
 	if next == cur {
 		return
@@ -648,11 +660,11 @@ func Choose(kind string, n int) int {
 			return 0
 		}
 	}
-	ids := make([]int, n)
-	for i := range ids {
-		ids[i] = i
+	pr := PointRec{N: n, Chosen: idx, CurEnabled: true, Kind: kind, Step: s.steps, Choice: true}
+	for i := 0; i < n && i < len(pr.Enabled); i++ {
+		pr.Enabled[i] = int16(i)
 	}
-	s.res.Points = append(s.res.Points, PointRec{Enabled: ids, Chosen: idx, CurEnabled: true, Kind: kind, Step: s.steps, Choice: true})
+	s.res.Points = append(s.res.Points, pr)
 	s.res.Choices = append(s.res.Choices, idx)
 	s.pos++
 	if idx != 0 {
